@@ -74,13 +74,18 @@ structure St where
   now : Int := 0
   buf : AList Nat Tr := []
   decided : List Nat := []     -- ids that have a recorded decision (sent-trace cache)
+  memo : AList Nat Nat := []   -- `Trace.totalImpact`: memoised cache impact (absent / 0 = not memoised)
   deriving Repr
 
 inductive Op where
   | adv (d : Nat)                                   -- the clock only moves forward
   | span (id : Nat) (root : Bool) (size : Nat)      -- processSpan at `now`
   | tick (taken : List Nat)                         -- sendExpiredTracesInCache(now); acceptor input
-  | eject (bytes : Nat) (imp : AList Nat Nat) (order : List Nat)   -- sendTracesEarly(bytes)
+  /-- `sendTracesEarly(bytes)`; acceptor inputs: the impacts the code computed, the order in which it
+  ejected, and per buffered trace its spans as (data size, lower and upper bound of
+  `time.Since(ArrivalTime)` in ns while the call ran — the wall clock is not the injected clock) -/
+  | eject (bytes : Nat) (imp : AList Nat Nat) (order : List Nat)
+      (ages : AList Nat (List (Nat × Nat × Nat)))
   deriving Repr
 
 /-- one decided trace as seen at the transmission: id, send reason, number of spans -/
@@ -104,7 +109,9 @@ def addSpan (s : St) (id : Nat) (tr : Tr) (root : Bool) (size : Nat) : St × Out
   let timeout : Int := if over then 0 else s.cfg.effDelay
   let upd : Int := s.now + timeout
   let tr2 : Tr := if mark ∧ upd < tr1.sendBy then { tr1 with sendBy := upd } else tr1
-  ({ s with buf := AList.put s.buf id tr2 }, .buffered tr2.sendBy tr2.count tr2.size tr2.hasRoot)
+  -- `Trace.AddSpan` resets `totalImpact` to 0
+  ({ s with buf := AList.put s.buf id tr2, memo := AList.del s.memo id },
+    .buffered tr2.sendBy tr2.count tr2.size tr2.hasRoot)
 
 def processSpan (s : St) (id : Nat) (root : Bool) (size : Nat) : St × Out :=
   match AList.get s.buf id with
@@ -180,26 +187,73 @@ def sizeOf (s : St) (id : Nat) : Nat :=
 
 def sizeSum (s : St) (ids : List Nat) : Nat := (ids.map (sizeOf s)).sum
 
+/-! ### the estimated impact (`types/event.go` `Span.CacheImpact`, `Trace.CacheImpact`) -/
+
+/-- `cacheImpactFactor` -/
+def impactFactor : Nat := Gen.Deadline.cacheImpactFactor.toNat
+
+/-- `Span.CacheImpact`: `(int(cacheImpactFactor*time.Since(ArrivalTime)/traceTimeout) + 1) * DataSize`
+— the factor is applied BEFORE the (truncating) Duration division. -/
+def spanImpact (tt size since : Nat) : Nat := (impactFactor * since / tt + 1) * size
+
+/-- `Trace.CacheImpact` when nothing is memoised: the sum over the spans, given as (size, age) -/
+def traceImpact (tt : Nat) (spans : List (Nat × Nat)) : Nat :=
+  (spans.map fun p => spanImpact tt p.1 p.2).sum
+
+/-- `traceTimeout` of `sendTracesEarly` (`0 → 60 s`), as a natural number of ns -/
+def Cfg.impactTimeout (c : Cfg) : Nat := c.effTimeout.toNat
+
+def lows (sp : List (Nat × Nat × Nat)) : List (Nat × Nat) := sp.map fun e => (e.1, e.2.1)
+def highs (sp : List (Nat × Nat × Nat)) : List (Nat × Nat) := sp.map fun e => (e.1, e.2.2)
+
+/-- Is the impact `imp id` the code reports for a buffered trace what `Trace.CacheImpact` defines?
+A non-zero memoised value is returned as it is; so is whatever is stored when the sort never looked
+at the trace (fewer than two buffered traces: `sort.Slice` calls no comparison).  Otherwise it is
+the sum of the span impacts at the instant of the call, which lies between the sums computed with
+the lower and the upper bounds of the span ages (the estimate is monotone in the age); the span
+list must be the trace's (count and total data size). -/
+def impactOK (s : St) (imp : AList Nat Nat) (ages : AList Nat (List (Nat × Nat × Nat))) (id : Nat) : Bool :=
+  let v := impOf imp id
+  let m := impOf s.memo id
+  if m ≠ 0 ∨ s.buf.length < 2 then decide (v = m)
+  else match AList.get ages id, AList.get s.buf id with
+    | some sp, some tr =>
+      decide (sp.length = tr.count ∧ ((sp.map (·.1)).sum = tr.size) ∧ (∀ e ∈ sp, e.2.1 ≤ e.2.2) ∧
+        traceImpact s.cfg.impactTimeout (lows sp) ≤ v ∧ v ≤ traceImpact s.cfg.impactTimeout (highs sp))
+    | _, _ => false
+
 /-- Relational specification of `sendTracesEarly(bytes)`: ejected traces are buffered, distinct, in
 non-increasing impact order, nothing left behind is heavier than an ejected one, the loop did not
 stop before the last ejected trace (released size `≤ bytes` after every proper prefix) and it
-stopped because the released size exceeded `bytes` or because the buffer was exhausted. -/
-def ValidEject (s : St) (bytes : Nat) (imp : AList Nat Nat) (order : List Nat) : Prop :=
+stopped because the released size exceeded `bytes` or because the buffer was exhausted; and the
+impacts are the estimates `Trace.CacheImpact` defines (`impactOK`). -/
+def ValidEject (s : St) (bytes : Nat) (imp : AList Nat Nat) (order : List Nat)
+    (ages : AList Nat (List (Nat × Nat × Nat))) : Prop :=
   order.Nodup ∧
   (∀ id ∈ order, id ∈ AList.keys s.buf) ∧
   (∀ id ∈ AList.keys s.buf, (AList.get imp id).isSome) ∧
   order.Pairwise (fun a b => impOf imp b ≤ impOf imp a) ∧
   (∀ x ∈ AList.keys s.buf, x ∉ order → ∀ y ∈ order, impOf imp x ≤ impOf imp y) ∧
   (∀ k ∈ List.range order.length, sizeSum s (order.take k) ≤ bytes) ∧
-  (bytes < sizeSum s order ∨ order.length = s.buf.length)
+  (bytes < sizeSum s order ∨ order.length = s.buf.length) ∧
+  (∀ id ∈ AList.keys s.buf, impactOK s imp ages id = true)
 
-instance (s : St) (bytes : Nat) (imp : AList Nat Nat) (order : List Nat) :
-    Decidable (ValidEject s bytes imp order) := by
+instance (s : St) (bytes : Nat) (imp : AList Nat Nat) (order : List Nat)
+    (ages : AList Nat (List (Nat × Nat × Nat))) :
+    Decidable (ValidEject s bytes imp order ages) := by
   unfold ValidEject; infer_instance
 
-def eject (s : St) (bytes : Nat) (imp : AList Nat Nat) (order : List Nat) : St × Out :=
-  if ValidEject s bytes imp order then
-    let s' := removeIds s order
+def setMemo (s : St) (m : AList Nat Nat) : St := { s with memo := m }
+
+/-- after the sort every buffered trace carries its impact in `totalImpact` (when at least two were
+buffered; a zero impact is not a memo) -/
+def memoAfter (s : St) (imp : AList Nat Nat) : AList Nat Nat :=
+  if s.buf.length < 2 then s.memo else imp
+
+def eject (s : St) (bytes : Nat) (imp : AList Nat Nat) (order : List Nat)
+    (ages : AList Nat (List (Nat × Nat × Nat))) : St × Out :=
+  if ValidEject s bytes imp order ages then
+    let s' := setMemo (removeIds s order) (memoAfter s imp)
     (s', .sent (sentOf s (fun _ => Reason.ejectedMemsize) order) (leftIds s'))
   else (s, .reject)
 
@@ -216,7 +270,7 @@ def step (s : St) : Op → St × Out
   | .adv d => ({ s with now := s.now + d }, .none)
   | .span id root size => processSpan s id root size
   | .tick taken => tick s taken
-  | .eject bytes imp order => eject s bytes imp order
+  | .eject bytes imp order ages => eject s bytes imp order ages
 
 def init (c : Cfg) : St := { cfg := c }
 
